@@ -947,6 +947,7 @@ pub fn sequences(f: &Family) -> Vec<(Vec<u32>, Vec<Step>)> {
     out
 }
 
+#[allow(dead_code)]
 pub fn steps_from_choices(f: &Family, choices: &[u32]) -> Option<Vec<Step>> {
     let mut hist = Vec::new();
     for (pos, &c) in choices.iter().enumerate() {
